@@ -137,6 +137,22 @@ EQUIVALENT = {
  ('result.go', 1098, 'sibling-field'): 'CDI device claims land in the table of device paths: still one owner per name, and a CDI name never equals a device path',
  ('adaptation.go', 249, 'sibling-field'): 'as c07-no-prune: a closed plugin that stays listed is skipped by the next relay and pruned by the next request',
  ('stub.go', 484, 'sibling-field'): 'the server stops when its listener fails after the mux is closed',
+ # batch 4
+ ('plugin.go', 352, 'delete-call'): 'closing the mux below ends the server too', ('plugin.go', 353, 'sibling-field'): 'closing the mux below closes every logical connection',
+ ('plugin.go', 351, 'sibling-field'): 'closing the mux below closes every logical connection', ('plugin.go', 349, 'delete-assign'): 'as c07-no-prune',
+ ('plugin.go', 328, 'delete-call'): 'failure path of start: the plugin object is dropped by the caller', ('plugin.go', 329, 'sibling-field'): 'failure path of start: the plugin object is dropped by the caller and never locked again',
+ ('plugin.go', 283, 'binop'): 'the peer pid only appears in log texts', ('plugin.go', 263, 'sibling-field'): 'log text only', ('plugin.go', 619, 'sibling-field'): 'log text only',
+ ('plugin.go', 305, 'sibling-field'): 'log level only', ('plugin.go', 488, 'sibling-field'): 'log level only', ('plugin.go', 526, 'sibling-field'): 'log level only', ('plugin.go', 595, 'sibling-field'): 'log level only',
+ ('plugin.go', 505, 'binop'): 'clamping to an equal value', ('plugin.go', 522, 'binop'): 'clamping to an equal value',
+ ('plugin.go', 575, 'binop'): 'chunk-size heuristic, as above', ('plugin.go', 571, 'int+1'): 'chunk-size heuristic, as above', ('plugin.go', 570, 'binop'): 'chunk-size heuristic, as above',
+ ('plugin.go', 560, 'delete-assign'): 'chunk-size heuristic, as above', ('plugin.go', 559, 'binop'): 'chunk-size heuristic, as above',
+ ('stub.go', 545, 'sibling-field'): 'log level only', ('stub.go', 692, 'sibling-field'): 'log level only', ('stub.go', 649, 'sibling-field'): 'log level only',
+ ('stub.go', 544, 'sibling-field'): 'connecting through the environment of a launched plugin; every harness passes a connection or dialer',
+ ('stub.go', 550, 'sibling-field'): 'as above', ('stub.go', 832, 'binop'): 'plugin identity derived from the binary name',
+ ('stub.go', 492, 'negate-if'): 'only skips waiting for the server goroutine of the closed session',
+ ('stub.go', 481, 'sibling-field'): 'closing the mux below closes every logical connection', ('stub.go', 480, 'negate-if'): 'closing the mux below closes the listener connection too',
+ ('stub.go', 708, 'sibling-field'): 'does not compile differently: see the deletion on the same line (close() resets the collected request)',
+ ('stub.go', 417, 'int+1'): 'channel capacity 2 instead of 1',
 }
 cnt = collections.Counter(r['outcome'].split(' (')[0] for r in rs)
 print(len(rs), 'mutants:', dict(cnt))
